@@ -71,6 +71,16 @@ def run(v, tier, seed, g):
                           what="facet/vertex kernel differs from the integral over the indicated local entity")
     if not g["ok"] and not v.violations:
         v.violation("gate", "proof obligations no longer check: " + "; ".join(g["broken"]), {"broken": g["broken"]}, no_input=True)
+    import embedcorr
+    ec = embedcorr.run(seed, 6 if tier == "quick" else 40)
+    v.oblige(ec["compared"] > 0 and ec["equal"] == ec["compared"], max(ec["compared"], 1))
+    if ec.get("error"):
+        v.violation("c02-embedding-model", "the sub-entity embedding correspondence could not be evaluated: " + ec["error"], {}, no_input=True)
+    for bad in ec["bad"][:2]:
+        v.violation(f"c02-embedding:{bad['cell']}:{bad['codim']}:{bad['entity']}",
+                    f"the reference point {bad['point']} of local entity {bad['entity']} (codimension {bad['codim']}) of a {bad['cell']} is mapped to {bad['image']}, "
+                    "not to the barycentric combination of that entity's vertices (Affine.embed)", bad)
+    v.notes["embedding_correspondence"] = {k: ec.get(k) for k in ("compared", "equal", "cells")}
     cov = {"checker_cmd": f"./check C02 --tier {tier}", "trusted_base": valprops.ORACLE_TRUST + ["Coq kernel (Facets.v: embeddings, macro layout)"],
            "programs": st["cases"], "disagreements_checked": st["agree"] + st["mismatch"], "evaluations": st["agree"] + st["mismatch"],
            "distinct_nontrivial": st["distinct"], "oracle": st,
